@@ -75,6 +75,42 @@ def load_stream(ctx, g, h):
                 ctx.add("oracle", "leak-between-irs", "a node of one loaded copy is found through the other", {"file": buf.getvalue().hex()})
 
 
+def deepcopy_stream(ctx, g, h):
+    """'independently for every IR in the process': copy.deepcopy(ir) gives another IR of the process (where the library supports
+    it at all).  The copy answers for exactly its own nodes, right after the copy and after a module was detached from the copy and
+    another one from the original; nothing of one is found through the other."""
+    import copy
+    for n in h.by_kind["IR"]:
+        ir = h.w.obj[n]
+        try:
+            cp = copy.deepcopy(ir)
+        except Exception:  # noqa: BLE001
+            ctx.count("deepcopy_unsupported")
+            continue
+        ctx.count("deepcopies")
+
+        def exact(which, x, stage):
+            r = world.reach(g, x)
+            mine = {id(y) for y in r}
+            for y in r:
+                got = x.get_by_uuid(y.uuid)
+                if got is not y:
+                    return "%s, %s: get_by_uuid(uuid of its own %s) gives %s" % (which, stage, type(y).__name__, "None" if got is None else
+                                                                              ("a node of the other IR" if id(got) not in mine else "another node"))
+            return None
+        bad = exact("the deep copy", cp, "right after copy.deepcopy") or exact("the original", ir, "after it was deep-copied")
+        if not bad and len(cp.modules) and len(ir.modules):
+            gone_cp, gone_ir = cp.modules[0], ir.modules[-1]
+            cp.modules.remove(gone_cp)
+            bad = exact("the deep copy", cp, "after a module was removed from the copy") or exact("the original", ir, "after a module was removed from the copy")
+            if not bad and cp.get_by_uuid(gone_cp.uuid) is not None:
+                bad = "the deep copy still finds the module removed from it"
+            cp.modules.append(gone_cp)
+            bad = bad or exact("the deep copy", cp, "after the module was appended to the copy again")
+        if bad:
+            ctx.add("oracle", "deepcopy-cache", bad, {"items": h.items})
+
+
 def any_block_scenario(ctx, g, rng, rounds):
     """Containment is by `interval.blocks`, whatever the class of a member: bare gtirb.ByteBlock objects and user subclasses of the
     block classes, proxies, symbols, sections and modules take part in whole-subtree attaches, detaches and moves at every level;
@@ -244,6 +280,7 @@ def run(ctx):
                     {"items": h.items[: idx + 1], "problems": bad[:10]})
         if not h.problems:
             load_stream(ctx, g, h)
+            deepcopy_stream(ctx, g, h)
     for shape in ("setitem-same-list", "setslice-same-list"):
         w, us = world.d4_probe(g, shape)
         bad = world.oracle_cache(w, us)
